@@ -278,22 +278,25 @@ func ProcessResponse(b []byte, key []byte, ntskeFetcher *ntske.Fetcher, pkt *Pac
 }
 
 // NewResponsePacket creates and returns a new Packet that should be used by
-// a server for a response to a request.
-func NewResponsePacket(cookies [][]byte, key []byte, uniqueid []byte) (pkt Packet) {
+// a server for a response to a request. An error is returned if the cookies
+// cannot be packed.
+func NewResponsePacket(cookies [][]byte, key []byte, uniqueid []byte) (pkt Packet, err error) {
 	var uid UniqueIdentifier
 	uid.ID = uniqueid
 	pkt.UniqueID = uid
 
-	lencookies := len(cookies) * (4 + len(cookies[0]))
+	lencookies := 0
+	for _, c := range cookies {
+		lencookies += 4 + (len(c)+3) & ^3
+	}
 	buf := make([]byte, lencookies)
-	var err error
 	pos := 0
 	for _, c := range cookies {
 		var cookie Cookie
 		cookie.Cookie = c
 		pos, err = cookie.pack(buf, pos)
 		if err != nil {
-			panic(err)
+			return Packet{}, err
 		}
 	}
 
@@ -302,7 +305,7 @@ func NewResponsePacket(cookies [][]byte, key []byte, uniqueid []byte) (pkt Packe
 	auth.PlainText = buf
 	pkt.Auth = auth
 
-	return pkt
+	return pkt, nil
 }
 
 // ProcessRequest handles a request from a client.
